@@ -228,6 +228,27 @@ def run(ctx):
                          "instanceID is a read-only preload of the instance_id setting (default uid)", w2j.loc(), why_fail=repr(k))
             if k.get("name") == "instanceName":
                 r5.check(k.get("bind") == {"calculate": iname} and k.get("type") == "calculate", f"meta[{desc}]:instanceName", "instanceName calculates exactly the instance_name setting", w2j.loc(), why_fail=repr(k))
+    # protected attributes: custom `attribute::` columns named like a documented root attribute never replace it
+    sxi = scls.methods["xml_instance"]
+    evil = {"id": "EVIL", "version": "EVIL", "xmlns": "EVIL", "odk:prefix": "EVIL", "odk:delimiter": "EVIL", "custom": "kept"}
+    sv_ = Obj(scls, {"attribute": dict(evil), "id_string": "real_id", "version": "v7", "instance_xmlns": "http://ex/ns", "prefix": "pp", "delimiter": "dd", "name": "data"}, name="survey")
+    itp = ctx.interp("C11.R1", hooks={"fnname:node": node_hook})
+    itp.reset([])
+    try:
+        root_ = itp.call_function(sxi, [sv_], {}, None, sxi.node) if False else None
+    except Raised:
+        root_ = None
+    # Survey.xml_instance starts from Section.xml_instance(self, ...): model that call by a bare root node
+    itp = ctx.interp("C11.R1", hooks={"fnname:node": node_hook, "call:Section.xml_instance": lambda i, a, k, n: NodeVal("data")})
+    itp.reset([])
+    try:
+        root_ = itp.call_function(sxi, [sv_], {}, None, sxi.node)
+        got_ = dict(root_.attrs) if isinstance(root_, NodeVal) else None
+    except Raised as e:
+        got_ = f"raises {e.exc_name}{e.exc_args}"
+    want_ = {"id": "real_id", "version": "v7", "xmlns": "http://ex/ns", "odk:prefix": "pp", "odk:delimiter": "dd", "custom": "kept"}
+    r1.check(got_ == want_, "root attributes[attribute:: columns named like documented ones]", "form_id / version / xmlns / prefix / delimiter win over same-named custom attributes; other custom attributes are kept",
+             sxi.loc(), why_fail=f"{got_!r}")
     from .c19 import meta_sealed_rule, nsmap_table, _NS_CASES
     meta_sealed_rule(ctx, r5, "C11.R5")
     # `namespaces` setting -> root declarations, for this form only
